@@ -29,19 +29,22 @@ var famDefs = []famDef{
 	{"close-handler", raisesClose},
 }
 
-// positionsFor: quick = every single position; thorough = in addition the
-// pool-boundary depths and every ordered pair of positions (outer + inner).
-func positionsFor(tier string) [][]position {
+// singlePositions: every single position (both tiers).
+func singlePositions() [][]position {
 	var out [][]position
 	for _, p := range positionsBase {
 		out = append(out, []position{p})
 	}
-	if tier != "thorough" {
-		return out
-	}
 	for _, p := range positionsDeepExtra {
 		out = append(out, []position{p})
 	}
+	return out
+}
+
+// pairPositions: every ordered pair (outer, inner) of the base positions
+// (thorough only).
+func pairPositions() [][]position {
+	var out [][]position
 	for _, p := range positionsBase {
 		for _, q := range positionsBase {
 			out = append(out, []position{p, q})
@@ -50,40 +53,50 @@ func positionsFor(tier string) [][]position {
 	return out
 }
 
-func valuesFor(tier string) []value {
-	if tier == "thorough" {
-		return valuesThorough
-	}
-	return valuesQuick
-}
-
+// budget: wall seconds after which a family stops itself (the run is then
+// reported as not exhaustive).  About 2.5 times what the family needs on 16
+// idle cores (measured 5.3 ms CPU per case with 2 renderings, 15 ms with 6),
+// never less than 40 s.
 func budget(tier, fam string) int {
 	if tier != "thorough" {
 		switch fam {
 		case "metamethod":
 			return 100
-		case "vm-error", "error-call", "close-handler":
-			return 60
+		case "results", "interleave":
+			return 30
 		}
-		return 40
+		return 50
 	}
 	switch fam {
-	case "metamethod":
-		return 420
-	case "vm-error":
-		return 240
-	case "error-call", "close-handler", "iterator":
-		return 180
+	case "metamethod", "metamethod-pairs", "vm-error-pairs":
+		return 150
+	case "iterator-pairs", "close-handler-pairs":
+		return 90
+	case "results", "interleave":
+		return 40
 	}
 	return 60
 }
 
-func productFamily(tier string, fd famDef) *core.Family {
-	vals := valuesFor(tier)
-	poss := positionsFor(tier)
+// productFamily: index = ((pos * nR + raise) * nV + value) * nC + catch.
+// pairs=false: single positions, every value of the tier, every rendering of
+// the tier.  pairs=true (thorough): ordered pairs of positions, values {string,
+// table}, renderings as in the quick tier (plain + one rotating).
+func productFamily(tier string, fd famDef, pairs bool) *core.Family {
+	vals := valuesQuick
+	poss := singlePositions()
+	name := fd.name
+	styleTier := tier
+	if tier == "thorough" {
+		vals = valuesThorough
+	}
+	if pairs {
+		vals = []value{valuesQuick[0], valuesQuick[3]}
+		poss = pairPositions()
+		name += "-pairs"
+		styleTier = "quick"
+	}
 	nC, nP, nV := uint64(len(catches)), uint64(len(poss)), uint64(len(vals))
-	// index = ((pos * nR + raise) * nV + value) * nC + catch: simplest first
-	// (single positions come before pairs)
 	nR := uint64(len(fd.raises))
 	at := func(i uint64) (gcase, bool) {
 		c := catches[i%nC]
@@ -99,7 +112,6 @@ func productFamily(tier string, fd famDef) *core.Family {
 		}
 		return build(r, v, p, c)
 	}
-	name := fd.name
 	return &core.Family{
 		Name: name,
 		Size: nP * nR * nV * nC,
@@ -108,7 +120,7 @@ func productFamily(tier string, fd famDef) *core.Family {
 			if !ok {
 				return core.Outcome{Skipped: true}
 			}
-			return runCase(tier, name, i, g)
+			return runCase(styleTier, fd.name, i, g)
 		},
 		Show: func(i uint64) string {
 			g, ok := at(i)
@@ -172,7 +184,12 @@ func families(tier string) []*core.Family {
 	fams = append(fams, listFamily(tier, "results", resultsCases))
 	fams = append(fams, listFamily(tier, "interleave", interleaveCases))
 	for _, fd := range famDefs {
-		fams = append(fams, productFamily(tier, fd))
+		fams = append(fams, productFamily(tier, fd, false))
+	}
+	if tier == "thorough" {
+		for _, fd := range famDefs {
+			fams = append(fams, productFamily(tier, fd, true))
+		}
 	}
 	return fams
 }
